@@ -6,12 +6,16 @@ pub mod c02;
 pub mod c03;
 pub mod c04;
 pub mod c06;
+pub mod c07;
 pub mod c08;
 pub mod c10;
+pub mod c12;
+pub mod c13;
 pub mod c16;
 pub mod c17;
 pub mod c18;
 pub mod c19;
+pub mod hist;
 
 pub struct Prop {
     pub id: &'static str,
@@ -19,6 +23,8 @@ pub struct Prop {
     pub replay: fn(&Value) -> Result<(), String>,
     pub rule: &'static str,
     pub assumptions: &'static [&'static str],
+    /// run under a supervising parent process (abnormal termination is attributed to the journalled case)
+    pub isolated: bool,
 }
 
 const COMMON_ASSUMPTIONS: &[&str] = &[
@@ -29,18 +35,21 @@ const COMMON_ASSUMPTIONS: &[&str] = &[
 
 pub fn lookup(id: &str) -> Option<Prop> {
     Some(match id {
-        "C01" => Prop { id: "C01", run: c01::run, replay: c01::replay, rule: c01::RULE, assumptions: COMMON_ASSUMPTIONS },
-        "C02" => Prop { id: "C02", run: c02::run, replay: c02::replay, rule: c02::RULE, assumptions: COMMON_ASSUMPTIONS },
-        "C03" => Prop { id: "C03", run: c03::run, replay: c03::replay, rule: c03::RULE, assumptions: COMMON_ASSUMPTIONS },
-        "C04" => Prop { id: "C04", run: c04::run_c04, replay: c04::replay_c04, rule: c04::RULE_C04, assumptions: COMMON_ASSUMPTIONS },
-        "C05" => Prop { id: "C05", run: c04::run_c05, replay: c04::replay_c05, rule: c04::RULE_C05, assumptions: COMMON_ASSUMPTIONS },
-        "C06" => Prop { id: "C06", run: c06::run, replay: c06::replay, rule: c06::RULE, assumptions: COMMON_ASSUMPTIONS },
-        "C08" => Prop { id: "C08", run: c08::run, replay: c08::replay, rule: c08::RULE, assumptions: COMMON_ASSUMPTIONS },
-        "C10" => Prop { id: "C10", run: c10::run, replay: c10::replay, rule: c10::RULE, assumptions: COMMON_ASSUMPTIONS },
-        "C16" => Prop { id: "C16", run: c16::run, replay: c16::replay, rule: c16::RULE, assumptions: COMMON_ASSUMPTIONS },
-        "C17" => Prop { id: "C17", run: c17::run, replay: c17::replay, rule: c17::RULE, assumptions: COMMON_ASSUMPTIONS },
-        "C18" => Prop { id: "C18", run: c18::run, replay: c18::replay, rule: c18::RULE, assumptions: COMMON_ASSUMPTIONS },
-        "C19" => Prop { id: "C19", run: c19::run, replay: c19::replay, rule: c19::RULE, assumptions: COMMON_ASSUMPTIONS },
+        "C01" => Prop { id: "C01", run: c01::run, replay: c01::replay, rule: c01::RULE, assumptions: COMMON_ASSUMPTIONS, isolated: false },
+        "C02" => Prop { id: "C02", run: c02::run, replay: c02::replay, rule: c02::RULE, assumptions: COMMON_ASSUMPTIONS, isolated: false },
+        "C03" => Prop { id: "C03", run: c03::run, replay: c03::replay, rule: c03::RULE, assumptions: COMMON_ASSUMPTIONS, isolated: false },
+        "C04" => Prop { id: "C04", run: c04::run_c04, replay: c04::replay_c04, rule: c04::RULE_C04, assumptions: COMMON_ASSUMPTIONS, isolated: false },
+        "C05" => Prop { id: "C05", run: c04::run_c05, replay: c04::replay_c05, rule: c04::RULE_C05, assumptions: COMMON_ASSUMPTIONS, isolated: false },
+        "C06" => Prop { id: "C06", run: c06::run, replay: c06::replay, rule: c06::RULE, assumptions: COMMON_ASSUMPTIONS, isolated: false },
+        "C07" => Prop { id: "C07", run: c07::run, replay: c07::replay, rule: c07::RULE, assumptions: COMMON_ASSUMPTIONS, isolated: true },
+        "C08" => Prop { id: "C08", run: c08::run, replay: c08::replay, rule: c08::RULE, assumptions: COMMON_ASSUMPTIONS, isolated: false },
+        "C10" => Prop { id: "C10", run: c10::run, replay: c10::replay, rule: c10::RULE, assumptions: COMMON_ASSUMPTIONS, isolated: false },
+        "C12" => Prop { id: "C12", run: c12::run, replay: c12::replay, rule: c12::RULE, assumptions: COMMON_ASSUMPTIONS, isolated: false },
+        "C13" => Prop { id: "C13", run: c13::run, replay: c13::replay, rule: c13::RULE, assumptions: COMMON_ASSUMPTIONS, isolated: true },
+        "C16" => Prop { id: "C16", run: c16::run, replay: c16::replay, rule: c16::RULE, assumptions: COMMON_ASSUMPTIONS, isolated: false },
+        "C17" => Prop { id: "C17", run: c17::run, replay: c17::replay, rule: c17::RULE, assumptions: COMMON_ASSUMPTIONS, isolated: false },
+        "C18" => Prop { id: "C18", run: c18::run, replay: c18::replay, rule: c18::RULE, assumptions: COMMON_ASSUMPTIONS, isolated: false },
+        "C19" => Prop { id: "C19", run: c19::run, replay: c19::replay, rule: c19::RULE, assumptions: COMMON_ASSUMPTIONS, isolated: false },
         _ => return None,
     })
 }
